@@ -814,6 +814,7 @@ def run_history(tape, tier, opts):
         file_snaps = {e.obj: open(e.obj, "rb").read() for e in W.of("cnsfile")}
         ctx.pool_cfg["scramble_workers"] = tape.chance(1, 2, "pool.scramble")
         ctx.worker_init.append(_worker_init)
+        fault_pop = tape.chance(1, 4, "hist.fault_pop")
         n_steps = tape.weighted([(1, 2), (2, 3), (3, 3), (4, 3)], "hist.len")
         if opts.get("steps"):
             n_steps = int(opts["steps"])
@@ -824,6 +825,9 @@ def run_history(tape, tier, opts):
         weights = [(nm, OPS[nm][3] * (4 if (profile == "stochastic" and OPS[nm][4])
                                       or (profile == "arrays" and nm in ARRAYS) else 1))
                    for nm in OP_NAMES]
+        if fault_pop:
+            # runs of the fault population spend most of their steps on pooled segmentation
+            weights = [(nm, w * (12 if nm == "segment" else 1)) for nm, w in weights]
         ctx.probe("profile." + profile)
         writes = _WriteTracker(rundir, ctx)
         last = None
@@ -883,9 +887,36 @@ def run_history(tape, tier, opts):
                 ctx.probe("rng.perturbed_before_stochastic")
             objs = [e.obj for e in ents]
             npools0 = len(ctx.pools)
-            result = _guarded(OPS[opname][1], objs, params, None)
+            # fault population: a pooled segmentation step may lose a worker or have a task
+            # raise; the step then fails, or returns what the pristine process returns
+            faulty = fault_pop and opname == "segment" and tape.chance(3, 4, "hist.fault_step")
+            base_f = dict(ctx.faults)
+            if faulty:
+                ctx.pool_cfg["fault_kinds"] = tape.choice([("death",), ("exc",), ("death", "exc")],
+                                                          "hist.fault_kinds")
+                ctx.pool_cfg["fault_rate"] = (1, 2)
+                ctx.pool_cfg["max_faults"] = 1
+                ctx.pool_faults_fired = 0
+            try:
+                result = _guarded(OPS[opname][1], objs, params, None)
+            finally:
+                ctx.pool_cfg["fault_kinds"] = ()
+            fired = sorted(k for k in ("pool.death", "pool.exc")
+                           if ctx.faults.get(k, 0) > base_f.get(k, 0))
             if len(ctx.pools) > npools0:
                 ctx.probe("op_under_pool." + opname)
+            if fired and isinstance(result, Exception):
+                # a loud failure under a fault is fine; nothing re-enters the world
+                ctx.probe("fault.step_raised")
+                res["population"] = "fault"
+                _check_args(W, D, opname, step)
+                step_digests.append("faulted")
+                if want_canon:
+                    step_canons.append(("faulted",))
+                continue
+            if fired:
+                ctx.probe("fault.step_survived")
+                res["population"] = "fault"
             got = D.canon(result)
             if isinstance(result, Exception):
                 ctx.probe("op_raised." + opname)
